@@ -33,7 +33,7 @@ fn creep(a: &Args) -> i32 {
     rec::emit(json!({"ev":"hdr","kind":"creep","pagesize":ps}));
     rec::emit(json!({"ev":"reset","h":0,"pagesize":ps,"np0":4,"decode":false}));
     let strict = a.n("strict", 0) != 0;
-    let db = match std::panic::catch_unwind(|| OpenOptions::new().pagesize(ps).num_pages(4).strict_mode(strict).open(&path)) {
+    let mut db = match std::panic::catch_unwind(|| OpenOptions::new().pagesize(ps).num_pages(4).strict_mode(strict).open(&path)) {
         Ok(Ok(db)) => db,
         other => {
             rec::emit(json!({"ev":"opened","h":0,"res":["err", format!("{:?}", other.is_ok())]}));
@@ -64,6 +64,28 @@ fn creep(a: &Args) -> i32 {
             crossed += 1;
             last_len = flen;
             rec::emit(json!({"ev":"extended","n":crossed,"file_bytes":flen,"num_pages":np}));
+            // a grown file must also be accepted again after close and reopen (its length is a
+            // multiple of the page size only for page sizes that divide 8 MiB)
+            rec::emit(json!({"ev":"closing"}));
+            drop(db);
+            db = match std::panic::catch_unwind(|| OpenOptions::new().pagesize(ps).num_pages(4).strict_mode(strict).open(&path)) {
+                Ok(Ok(d)) => {
+                    rec::emit(json!({"ev":"reopen","res":["ok"]}));
+                    d
+                }
+                other => {
+                    let why = match other {
+                        Ok(Err(e)) => format!("{}", e),
+                        _ => format!("panic: {}", crate::exec::LAST_PANIC.with(|p| p.borrow().clone())),
+                    };
+                    rec::emit(json!({"ev":"reopen","res":["err", why.clone()]}));
+                    rec::finish();
+                    iohook::deactivate();
+                    println!("{}", json!({"txs": i, "bad": 1, "problems": [format!("reopen of the grown file ({} bytes) failed: {}", flen, why)],
+                                          "file_bytes": flen, "crossed": crossed, "num_pages": np}));
+                    return 0;
+                }
+            };
         }
         let boundary = flen / ps; // pages that fit the file
         let d = (boundary + 1).saturating_sub(np);
